@@ -431,7 +431,8 @@ class Sim:
 
 
 def impl_sched(case):
-    import sys
+    import sys, logging
+    logging.disable(logging.CRITICAL)
     sys.unraisablehook = lambda *a: None     # pending coroutines closed at teardown are noisy
     sim = Sim(case)
     try:
